@@ -416,19 +416,22 @@ theorem setAt_ok (e : Env) (p : Pat) :
 
 /-! ### leading strings -/
 
-/-- the invariant of `prefixes`: the text at `i` starts with one of the strings, and when the analysis
-    says "exact" that string is what was consumed up to `j` -/
-def PrefsOK (e : Env) (r : List (List Nat) × Bool) (i j : Nat) : Prop :=
-  ∃ l ∈ r.1, l <+: e.text.drop i ∧ (r.2 = true → i + l.length = j)
+/-- the normalised text -/
+def ntext (e : Env) (norm : Nat → Nat) : List Nat := e.text.map norm
 
-theorem PrefsOK.trivial (e : Env) (i j : Nat) : PrefsOK e ([[]], false) i j :=
+/-- the invariant of `prefixes`: the normalised text at `i` starts with one of the strings, and when the
+    analysis says "exact" that string is as long as what was consumed up to `j` -/
+def PrefsOK (e : Env) (norm : Nat → Nat) (r : List (List Nat) × Bool) (i j : Nat) : Prop :=
+  ∃ l ∈ r.1, l <+: (ntext e norm).drop i ∧ (r.2 = true → i + l.length = j)
+
+theorem PrefsOK.trivial (e : Env) (norm : Nat → Nat) (i j : Nat) : PrefsOK e norm ([[]], false) i j :=
   ⟨[], by simp, List.nil_prefix, by simp⟩
 
-theorem PrefsOK.nil_same (e : Env) (c : Bool) (i : Nat) : PrefsOK e ([[]], c) i i :=
+theorem PrefsOK.nil_same (e : Env) (norm : Nat → Nat) (c : Bool) (i : Nat) : PrefsOK e norm ([[]], c) i i :=
   ⟨[], by simp, List.nil_prefix, fun _ => by simp⟩
 
-theorem PrefsOK.weaken {e : Env} {L : List (List Nat)} {c : Bool} {i j : Nat}
-    (h : PrefsOK e (L, c) i j) (k : Nat) : PrefsOK e (L, false) i k := by
+theorem PrefsOK.weaken {e : Env} {norm : Nat → Nat} {L : List (List Nat)} {c : Bool} {i j : Nat}
+    (h : PrefsOK e norm (L, c) i j) (k : Nat) : PrefsOK e norm (L, false) i k := by
   obtain ⟨l, hl, hp, _⟩ := h
   exact ⟨l, hl, hp, by simp⟩
 
@@ -467,16 +470,23 @@ theorem setChars_ok (e : Env) (maxCount : Nat) (pr : Pred) (cs : List Nat) (h : 
     · simp at h
   · simp at h
 
-theorem text_step (e : Env) (i r : Nat) (h : e.text[i]? = some r) : [r] <+: e.text.drop i := by
+theorem normChars_mem (norm : Nat → Nat) (cs : List Nat) (r : Nat) (h : r ∈ cs) : norm r ∈ normChars norm cs := by
+  unfold normChars
+  rw [List.mem_eraseDups]
+  exact List.mem_map.mpr ⟨r, h, rfl⟩
+
+theorem text_step (e : Env) (norm : Nat → Nat) (i r : Nat) (h : e.text[i]? = some r) :
+    [norm r] <+: (ntext e norm).drop i := by
   obtain ⟨hlt, hget⟩ := List.getElem?_eq_some_iff.mp h
-  rw [List.drop_eq_getElem_cons hlt, hget]
+  unfold ntext
+  rw [← List.map_drop, List.drop_eq_getElem_cons hlt, hget]
   exact ⟨_, rfl⟩
 
 /-- `n` of at least `n` iterations of a body whose strings `B` are exact -/
-theorem power_ok (e : Env) (maxLen maxCount : Nat) (B : List (List Nat)) (f : St → List St)
-    (hf : ∀ s, ∀ y ∈ f s, PrefsOK e (B, true) s.pos y.pos) :
+theorem power_ok (e : Env) (norm : Nat → Nat) (maxLen maxCount : Nat) (B : List (List Nat)) (f : St → List St)
+    (hf : ∀ s, ∀ y ∈ f s, PrefsOK e norm (B, true) s.pos y.pos) :
     ∀ (n : Nat) {j : Nat} {s s' : St}, Chain f j s s' → n ≤ j →
-      ∃ l ∈ (power maxLen maxCount B n).1, l <+: e.text.drop s.pos ∧
+      ∃ l ∈ (power maxLen maxCount B n).1, l <+: (ntext e norm).drop s.pos ∧
         ((power maxLen maxCount B n).2 = true → ∃ sn, s.pos + l.length = sn.pos ∧ Chain f (j - n) sn s') := by
   intro n
   induction n with
@@ -509,26 +519,27 @@ theorem power_ok (e : Env) (maxLen maxCount : Nat) (B : List (List Nat)) (f : St
 theorem chain_zero_eq {f : St → List St} {s s' : St} (hc : Chain f 0 s s') : s = s' := by
   cases hc; rfl
 
-theorem prefixes_ok (e : Env) (maxLen maxCount : Nat) (p : Pat) :
-    ∀ (st : St), ∀ st' ∈ m e p false st, PrefsOK e (prefixes maxLen maxCount p) st.pos st'.pos := by
+theorem prefixes_ok (e : Env) (norm : Nat → Nat) (maxLen : Nat) (p : Pat) :
+    ∀ (maxCount : Nat) (st : St), ∀ st' ∈ m e p false st,
+      PrefsOK e norm (prefixes norm maxLen maxCount p) st.pos st'.pos := by
   induction p with
-  | empty => intro st st' hm; simp [m] at hm; subst hm; exact PrefsOK.nil_same _ _ _
-  | nothing => intro st st' hm; simp [m] at hm
+  | empty => intro mc st st' hm; simp [m] at hm; subst hm; exact PrefsOK.nil_same _ _ _ _
+  | nothing => intro mc st st' hm; simp [m] at hm
   | anchor a =>
-    intro st st' hm
+    intro mc st st' hm
     simp only [m] at hm
     split at hm
-    · simp at hm; subst hm; exact PrefsOK.nil_same _ _ _
+    · simp at hm; subst hm; exact PrefsOK.nil_same _ _ _ _
     · simp at hm
   | look behind neg body ih =>
-    intro st st' hm
+    intro mc st st' hm
     have := skippable_pos e (.look behind neg body) rfl false st st' hm
-    rw [this]; exact PrefsOK.nil_same _ _ _
-  | ref g ci => intro st st' _; exact PrefsOK.trivial _ _ _
-  | refCond g yes no _ _ => intro st st' _; exact PrefsOK.trivial _ _ _
-  | exprCond c yes no _ _ _ => intro st st' _; exact PrefsOK.trivial _ _ _
+    rw [this]; exact PrefsOK.nil_same _ _ _ _
+  | ref g ci => intro mc st st' _; exact PrefsOK.trivial _ _ _ _
+  | refCond g yes no _ _ => intro mc st st' _; exact PrefsOK.trivial _ _ _ _
+  | exprCond c yes no _ _ _ => intro mc st st' _; exact PrefsOK.trivial _ _ _ _
   | chr pr =>
-    intro st st' hm
+    intro mc st st' hm
     simp only [prefixes]
     split
     · rename_i cs hcs
@@ -539,56 +550,56 @@ theorem prefixes_ok (e : Env) (maxLen maxCount : Nat) (p : Pat) :
         · rename_i htest
           simp at hm; subst hm
           have hs := (stepChar_spec e false st.pos r pos' hstep).2.2 rfl
-          refine ⟨[r], List.mem_map.mpr ⟨r, setChars_ok e maxCount pr cs hcs r htest, rfl⟩,
-            text_step e st.pos r hs.1, fun _ => ?_⟩
+          refine ⟨[norm r], List.mem_map.mpr ⟨norm r, normChars_mem norm cs r (setChars_ok e mc pr cs hcs r htest), rfl⟩,
+            text_step e norm st.pos r hs.1, fun _ => ?_⟩
           simp [hs.2]
         · simp at hm
       · simp at hm
-    · exact PrefsOK.trivial _ _ _
+    · exact PrefsOK.trivial _ _ _ _
   | seq a b iha ihb =>
-    intro st st' hm
+    intro mc st st' hm
     simp only [m, Bool.false_eq_true, if_false] at hm
     rw [List.mem_flatMap] at hm
     obtain ⟨y, hy, hxy⟩ := hm
-    have ha := iha st y hy
-    have hb := ihb y st' hxy
+    have ha := iha mc st y hy
     simp only [prefixes]
     split
     · rename_i hex
       obtain ⟨l1, hl1, hp1, he1⟩ := ha
       have hpos := he1 hex
+      have hb := ihb (mc / (prefixes norm maxLen mc a).1.length) y st' hxy
       split
       · obtain ⟨l2, hl2, hp2, he2⟩ := hb
         refine ⟨l1 ++ l2, mem_cross hl1 hl2, prefix_concat hp1 (by rw [hpos]; exact hp2), fun h2 => ?_⟩
         have := he2 h2
         simp only [List.length_append]; omega
       · exact ⟨l1, hl1, hp1, by simp⟩
-    · exact PrefsOK.weaken (c := (prefixes maxLen maxCount a).2) ha _
+    · exact PrefsOK.weaken (c := (prefixes norm maxLen mc a).2) ha _
   | alt a b iha ihb =>
-    intro st st' hm
+    intro mc st st' hm
     simp only [m, List.mem_append] at hm
     simp only [prefixes]
     split
     · rcases hm with hm | hm
-      · obtain ⟨l, hl, hp, he⟩ := iha st st' hm
+      · obtain ⟨l, hl, hp, he⟩ := iha mc st st' hm
         exact ⟨l, List.mem_append_left _ hl, hp, fun h => he (by simp at h; exact h.1)⟩
-      · obtain ⟨l, hl, hp, he⟩ := ihb st st' hm
+      · obtain ⟨l, hl, hp, he⟩ := ihb mc st st' hm
         exact ⟨l, List.mem_append_right _ hl, hp, fun h => he (by simp at h; exact h.2)⟩
-    · exact PrefsOK.trivial _ _ _
+    · exact PrefsOK.trivial _ _ _ _
   | quant lzy lo hi body ih =>
-    intro st st' hm
+    intro mc st st' hm
     obtain ⟨j, hc, hlo, hhi⟩ := quant_chain e lzy lo hi body false st st' hm
     simp only [prefixes]
     split
-    · exact PrefsOK.trivial _ _ _
+    · exact PrefsOK.trivial _ _ _ _
     · rename_i hlo0
       split
       · rename_i hex
-        have hf : ∀ s, ∀ y ∈ m e body false s, PrefsOK e ((prefixes maxLen maxCount body).1, true) s.pos y.pos := by
+        have hf : ∀ s, ∀ y ∈ m e body false s, PrefsOK e norm ((prefixes norm maxLen mc body).1, true) s.pos y.pos := by
           intro s y hy
-          have := ih s y hy
+          have := ih mc s y hy
           rw [← hex]; exact this
-        obtain ⟨l, hl, hp, he⟩ := power_ok e maxLen maxCount _ (m e body false) hf (min lo maxLen) hc
+        obtain ⟨l, hl, hp, he⟩ := power_ok e norm maxLen mc _ (m e body false) hf (min lo maxLen) hc
           (by have := Nat.min_le_left lo maxLen; omega)
         refine ⟨l, hl, hp, fun h => ?_⟩
         simp at h
@@ -599,16 +610,16 @@ theorem prefixes_ok (e : Env) (maxLen maxCount : Nat) (p : Pat) :
         rw [hmin, hj, Nat.sub_self] at hcn
         rw [hsn, chain_zero_eq hcn]
       · obtain ⟨y, hy⟩ := chain_head hc (by omega)
-        exact PrefsOK.weaken (c := (prefixes maxLen maxCount body).2) (ih st y hy) _
+        exact PrefsOK.weaken (c := (prefixes norm maxLen mc body).2) (ih mc st y hy) _
   | cap g body ih =>
-    intro st st' hm
+    intro mc st st' hm
     simp only [m, List.mem_map] at hm
     obtain ⟨y, hy, rfl⟩ := hm
-    exact ih st y hy
+    simpa [prefixes] using ih mc st y hy
   | atomic body ih =>
-    intro st st' hm
+    intro mc st st' hm
     simp only [m] at hm
-    exact ih st st' (List.mem_of_mem_take hm)
+    simpa [prefixes] using ih mc st st' (List.mem_of_mem_take hm)
 
 theorem rPrefix_mono (R : Nat → Nat → Bool) : ∀ (x l t : List Nat), rPrefix R x l = true → l <+: t → rPrefix R x t = true := by
   intro x
@@ -623,6 +634,21 @@ theorem rPrefix_mono (R : Nat → Nat → Bool) : ∀ (x l t : List Nat), rPrefi
       subst hu
       simp only [rPrefix, List.cons_append, Bool.and_eq_true] at h ⊢
       exact ⟨h.1, ih l (l ++ u) h.2 ⟨u, rfl⟩⟩
+
+/-- a published string that equals the normalised text matches the text itself under any comparison
+    `R` that accepts every rune against its representative -/
+theorem rPrefix_norm (R : Nat → Nat → Bool) (norm : Nat → Nat) (hR : ∀ t, R (norm t) t = true) :
+    ∀ (x t : List Nat), rPrefix (fun a b => a == b) x (t.map norm) = true → rPrefix R x t = true := by
+  intro x
+  induction x with
+  | nil => intro t _; simp [rPrefix]
+  | cons a x ih =>
+    intro t h
+    cases t with
+    | nil => simp [rPrefix] at h
+    | cons b t =>
+      simp only [List.map_cons, rPrefix, Bool.and_eq_true, beq_iff_eq] at h ⊢
+      exact ⟨by rw [h.1]; exact hR b, ih t h.2⟩
 
 /-! ### the leading positive lookahead -/
 
